@@ -79,8 +79,14 @@ func (a *adversary) idx() int32 {
 
 func (a *adversary) length() int32 {
 	pl := int32(a.pieceLen)
-	vals := []int32{pl, 0, -1, pl - 1, pl + 1, hugeLen, -1 << 31, 1}
+	// benign values (the piece length, zero = "unused") are frequent, so that a
+	// frame often deviates in one field only and gets past the checks of the others
+	vals := []int32{pl, pl, 0, 0, -1, pl - 1, pl + 1, hugeLen, -1 << 31, 1}
 	return vals[a.tp.Draw(len(vals))]
+}
+
+func (a *adversary) offset() int32 {
+	return []int32{0, 0, 0, -1, 1}[a.tp.Draw(5)]
 }
 
 func bitfieldBytes(n uint, full bool) []byte {
@@ -102,7 +108,11 @@ func (a *adversary) handshake(nc net.Conn) bool {
 		BitfieldBytes: bitfieldBytes(uint(a.nPieces), a.tp.Chance(500))}
 	m := &p2p.Message{Type: p2p.Message_BITFIELD, Bitfield: bf}
 	valid := true
-	switch a.tp.Draw(10) {
+	hk := a.tp.Draw(14) - 4 // 5 in 14 handshakes are valid: the frames behind them reach the dispatcher
+	if hk < 0 {
+		hk = 0
+	}
+	switch hk {
 	case 0: // valid
 	case 1: // bitfield of the wrong size
 		sizes := []uint{0, 1, uint(a.nPieces) + 1, uint(a.nPieces) + 64, 1 << 16}
@@ -163,10 +173,10 @@ func (a *adversary) frame(nc net.Conn) error {
 	var payload []byte
 	switch kind {
 	case 0: // piece request, hostile index/offset/length
-		m = &p2p.Message{Type: p2p.Message_PIECE_REQUEST, PieceRequest: &p2p.PieceRequestMessage{Index: a.idx(), Offset: int32(tp.Draw(3)) - 1, Length: a.length()}}
+		m = &p2p.Message{Type: p2p.Message_PIECE_REQUEST, PieceRequest: &p2p.PieceRequestMessage{Index: a.idx(), Offset: a.offset(), Length: a.length()}}
 	case 1: // piece payload, header and data disagree in every way
 		l := a.length()
-		m = &p2p.Message{Type: p2p.Message_PIECE_PAYLOAD, PiecePayload: &p2p.PiecePayloadMessage{Index: a.idx(), Offset: int32(tp.Draw(3)) - 1, Length: l}}
+		m = &p2p.Message{Type: p2p.Message_PIECE_PAYLOAD, PiecePayload: &p2p.PiecePayloadMessage{Index: a.idx(), Offset: a.offset(), Length: l}}
 		switch {
 		case l > 0 && l <= 1<<20 && tp.Chance(600):
 			payload = kit.Bytes(a.s, int(l))
